@@ -726,6 +726,19 @@ class Result:
         return dict(self.__dict__)
 
 
+def harness_object_error(e):
+    """AttributeError on an object whose class is defined by the harness (a fake standing in for a repository object lacks an
+    attribute the code now uses): the harness needs updating, this says nothing about the property"""
+    if not isinstance(e, AttributeError):
+        return False
+    obj = getattr(e, 'obj', None)
+    if obj is None:
+        return False
+    cls = obj if isinstance(obj, type) else type(obj)
+    mod = getattr(cls, '__module__', '') or ''
+    return mod.split('.')[0] in ('harness', 'lib', 'spec') and not mod.startswith('lib.fakegdb') and mod != 'gdb'
+
+
 def _one_path(run, plan, timeout_ms, want_sample):
     """execute one path (the real code under proxies) and decide its checks; returns a plain dict"""
     global _cur
@@ -742,7 +755,8 @@ def _one_path(run, plan, timeout_ms, want_sample):
     old_handler = None
     try:
         old_handler = signal.signal(signal.SIGALRM, _alarm)
-        signal.alarm(limit)
+        # repeating: an exception raised inside a destructor or a C call-back is swallowed by the interpreter, the next tick tries again
+        signal.setitimer(signal.ITIMER_REAL, limit, 2)
     except (ValueError, OSError):
         old_handler = None
     def _timed_out():
@@ -750,7 +764,7 @@ def _one_path(run, plan, timeout_ms, want_sample):
         out['status'] = 'cex'
         out['failed'] = 'does not terminate (no result within %d s on one path)' % limit
         try:
-            signal.alarm(0)
+            signal.setitimer(signal.ITIMER_REAL, 0)
             out['cex'] = ctx.model_assignment() if ctx._check() == 'sat' else None
         except BaseException:
             out['cex'] = {'vars': {}, 'choices': [c[1] for c in ctx.choices]}
@@ -787,6 +801,8 @@ def _one_path(run, plan, timeout_ms, want_sample):
                 if fn.startswith(verif_root) and os.sep + 'fakegdb' + os.sep not in fn:
                     owner = 'harness'
                     break
+            if harness_object_error(e):
+                owner = 'harness'
             if type(e).__module__ != 'gdb' and owner != 'repo':
                 # raised by harness code itself (innermost frame outside the repository): a harness bug, never a verdict
                 out['status'] = 'error'
@@ -808,7 +824,7 @@ def _one_path(run, plan, timeout_ms, want_sample):
     finally:
         _cur = None
         try:
-            signal.alarm(0)
+            signal.setitimer(signal.ITIMER_REAL, 0)
             if old_handler is not None:
                 signal.signal(signal.SIGALRM, old_handler)
         except (ValueError, OSError):
